@@ -21,7 +21,9 @@ def addWrite (g : LGraph) (d : DS) (p : Option Payload := none) : LGraph := g.se
 def addCte (g : LGraph) (d : DS) (p : Option Payload := none) : LGraph := g.setTag (.ds d) .cte true p
 /-- `add_drop(value)` (holders.py:276) -/
 def addDrop (g : LGraph) (d : DS) : LGraph := g.setTag (.ds d) .drop true
-/-- `add_rename(src, tgt)` (holders.py:287) -/
-def addRename (g : LGraph) (a b : DS) : LGraph := g.addEdge (.ds a) (.ds b) .rename
+/-- `add_rename(src, tgt)` (holders.py:300): the RENAME edge carries `index = len(self.rename)`, the number of RENAME edges the holder
+    already has — the position of the pair in a multi‑pair RENAME statement (D10 repaired) -/
+def addRename (g : LGraph) (a b : DS) : LGraph :=
+  g.addEdge (.ds a) (.ds b) .rename (some (g.edges.filter (fun e => g.ety e.1 e.2 == some .rename)).length)
 
 end SqlLineage.Holder
